@@ -50,6 +50,7 @@ class PB:
         self.gates, self.queues, self.barriers, self.onces, self.keys = [], [], [], [], 0
         self.sleeps = 0
         self.meta = {}
+        self.reserved = set()     # counters read between two barrier waits: only the phase structure may add to them
 
     def full(self):
         return len(self.threads) >= LIM["threads"] - 8
@@ -70,7 +71,7 @@ class PB:
 
     def counter(self):
         if len(self.counters) >= LIM["counters"]:
-            return self.rng.below(len(self.counters))
+            return self.rng.choice([i for i in range(len(self.counters)) if i not in self.reserved])
         if self.rng.chance(1, 4):
             if self.spins < LIM["spins"] and (self.spins == 0 or self.rng.chance(1, 2)):
                 self.spins += 1
@@ -92,7 +93,9 @@ class PB:
         return cur + n <= LIM[what]
 
     def add(self, t, c=None):
-        c = self.rng.below(len(self.counters)) if c is None and self.counters and self.rng.chance(2, 3) else (self.counter() if c is None else c)
+        if c is None:
+            free = [i for i in range(len(self.counters)) if i not in self.reserved]
+            c = self.rng.choice(free) if free and self.rng.chance(2, 3) else self.counter()
         k = self.rng.below(13) - 3
         self.op(t, "%s:%d:%d" % ("tadd" if self.rng.chance(1, 4) else "add", c, k))
         return c
@@ -293,11 +296,12 @@ def sc_handoff(pb, p):
 
 def sc_barrier(pb, p):
     rng = pb.rng
-    if not pb.have("barriers"):
+    if not pb.have("barriers") or len(pb.counters) + 2 > LIM["counters"]:
         return sc_forkjoin(pb, p)
     n = 2 + rng.below(4)
     rounds = 1 + rng.below(3)
     sc, c = pb.counter(), pb.counter()
+    pb.reserved.add(c)
     pb.barriers.append((n, sc))
     b = len(pb.barriers) - 1
     parent_in = rng.chance(1, 2)
@@ -533,11 +537,11 @@ def gen_program(rng, family):
     elif family == "main_exit":
         n = 1 + rng.below(4)
         pb.exit[0] = 3
+        pb.work(0, 1)          # before the spawns: the last `fin` prints, nothing of main may race with it
         for _ in range(n):
             u = pb.spawn(0, mode=rng.choice([0, 1, 4]))
             pb.work(u)
             pb.op(u, "fin:%d" % n)
-        pb.work(0, 1)
     else:
         raise RuntimeError("unknown family " + family)
     return {"family": family, "lines": pb.text(), "meta": pb.meta,
